@@ -81,6 +81,12 @@ CLAIMS["C17"] = dict(
   text="Decides that delete/yank/change follow one operator protocol (same adjustment before the read, same range expression over one Selection.Pos() call, same line-wise rule), that yank cannot write the buffer, the pending-operator protocol in execute/Pending/RunPending, and that the adjustment table names registered commands. Which range each motion marks is not decided.",
   ref="§5 C17")
 
+CLAIMS["C14"] = dict(
+  level="other",
+  technique="static analysis: receiver/only-writer checks on the virtual line, shape and ordering of the Move/Cut/InsertAt triple (sibling agreement), guard facts in abort, must-pass-through in the main loop",
+  text="Decides that candidate insertion edits only a fresh copy of the line, that both insertion paths replace exactly [pos-len(prefix), pos) by the prepared candidate, that cancelling restores the virtual line from the real one, that abort only cancels while a completion is active, and that UpdateInserted separates the two keymap dispatches. Unit correctness of len(prefix) and text equality are not decided here (unit findings are reported separately).",
+  ref="§5 C14")
+
 NA_REASONS = {
  "C15": "Cycle coverage is arithmetic over a grid whose shape is computed at run time from candidate widths and terminal width; no pairing/ownership/ordering/table clause is a necessary condition, and a bounds proof of rows[y][x] needs the same run-time shape invariants. A check would be a brittle proxy (DESIGN.md §5 C15, §8).",
 }
